@@ -1,43 +1,45 @@
 package sam
 
 import (
-	"encoding/csv"
+	"bufio"
 	"io"
 	"iter"
 	"strings"
 
 	"github.com/fluhus/gostuff/aio"
-	"github.com/fluhus/gostuff/iterx"
 )
 
 // ReaderHeader iterates over SAM or header entries in a reader.
 func ReaderHeader(r io.Reader) iter.Seq2[SAMOrHeader, error] {
 	return func(yield func(SAMOrHeader, error) bool) {
-		csvReader := iterx.CSVReader(r, func(r *csv.Reader) {
-			r.Comma = '\t'
-			r.FieldsPerRecord = -1 // Allow variable number of fields.
-			r.LazyQuotes = true
-		})
-		for line, err := range csvReader {
-			// Error case.
-			if err != nil {
-				if !yield(SAMOrHeader{}, err) {
-					break
+		// SAM has no quoting; fields are split on tabs only.
+		br := bufio.NewReader(r)
+		for {
+			text, err := br.ReadString('\n')
+			// Error case. A partially read line is dropped.
+			if err != nil && err != io.EOF {
+				yield(SAMOrHeader{}, err)
+				return
+			}
+			done := err == io.EOF
+			text = strings.TrimSuffix(strings.TrimSuffix(text, "\n"), "\r")
+			if text == "" {
+				if done {
+					return
 				}
 				continue
 			}
 			// Header line case.
-			if len(line) > 0 && strings.HasPrefix(line[0], "@") {
-				h := strings.Join(line, "\t")
-				if !yield(SAMOrHeader{H: &h}, nil) {
-					break
+			if strings.HasPrefix(text, "@") {
+				if !yield(SAMOrHeader{H: &text}, nil) || done {
+					return
 				}
 				continue
 			}
 			// SAM line case.
-			s, err := parseLine(line)
-			if !yield(SAMOrHeader{S: s}, err) {
-				break
+			s, err := parseLine(strings.Split(text, "\t"))
+			if !yield(SAMOrHeader{S: s}, err) || done {
+				return
 			}
 		}
 	}
